@@ -642,6 +642,8 @@ def gen(tier, rng):
     yield ('pinned', 4, [1, 0, [[1], [1], [2], [5, simple_err(1)], [2], [5, simple_err(2)]]])
     yield ('pinned', 4, [0, 0, [[1], [1], [5, simple_err(1)], [3], [5, simple_err(2)], [2], [5, simple_err(3)]]])
     yield ('pinned', 5, [0, [[simple_err(1, 1), simple_err(2, 2), simple_err(3)], [1, simple_err(9)]]])
+    # F27 inside a history: in non-strict mode the renderer's exception escapes from report_error
+    yield ('pinned', 4, [0, 0, [[1], [5, simple_err(1)], [2], [5, [2, '%i passed to int.to.chr$', [1], [0], [0]]], [5, simple_err(3)]]])
     # ---- exhaustive: splitlines
     alpha = ['a', '\n', '\r', '\x0b', ' ']
     for n in range(0, (5 if quick else 7) + 1):
@@ -836,6 +838,9 @@ def _sig_F27(kind, fn, arg, detail):
         return False
     if fn == 1:
         return arg[0][2] == [1] and 'format_error raised' in str(detail)
+    if fn == 4:
+        m = re.search(r'reporting problem (\d+) raised a foreign exception', str(detail))
+        return bool(m) and any(o[0] == 5 and o[1][0] == int(m.group(1)) and o[1][2] == [1] for o in arg[2])
     return False
 
 KNOWN_SIGNATURES = {'F27': _sig_F27}
